@@ -37,10 +37,11 @@ type Event struct {
 }
 
 type schedMsg struct {
-	kind msgKind
-	site int32
-	ev   Event
-	cond func() bool
+	kind   msgKind
+	site   int32
+	ev     Event
+	cond   func() bool
+	wakeFn func() uint64
 }
 
 type Task struct {
@@ -53,6 +54,7 @@ type Task struct {
 	die      bool
 	state    int // 0 runnable, 1 blocked on harness condition, 2 done, 3 abandoned
 	cond     func() bool
+	wakeFn   func() uint64 // simulated time at which a blocked task's condition may start to hold (0 = unknown)
 	stallTo  uint64
 	prio     int
 	s        *Sched
@@ -108,6 +110,7 @@ type Sched struct {
 	epoch       uint64 // incremented whenever a task is released to run
 	progress    uint64 // incremented whenever a task hands back after really running, or simulated time jumps
 	LockWaits   int
+	Blocks      int
 }
 
 func NewSched(ch *Choices, policy, meanQ int) *Sched {
@@ -192,6 +195,13 @@ func (s *Sched) lockBlocked() {
 		return
 	}
 	t.handoff(schedMsg{kind: mLockWait, site: t.lastSite})
+}
+
+// BlockUntil parks the task until cond() holds; simulated time may jump to wakeAt to make it hold.
+//
+//go:norace
+func (t *Task) BlockUntil(cond func() bool, wake func() uint64) {
+	t.handoff(schedMsg{kind: mBlock, cond: cond, wakeFn: wake, site: -2})
 }
 
 // Yield is an explicit scheduling point in harness code.
@@ -317,6 +327,11 @@ func (s *Sched) Run() {
 				if t.state == tsRunnable && t.stallTo > s.Steps && (next == 0 || t.stallTo < next) {
 					next = t.stallTo
 				}
+				if t.state == tsBlocked && t.wakeFn != nil {
+					if w := t.wakeFn(); w > s.Steps && (next == 0 || w < next) {
+						next = w
+					}
+				}
 			}
 			if next != 0 {
 				s.Steps = next
@@ -395,6 +410,8 @@ func (s *Sched) Run() {
 				if m.cond != nil && !m.cond() {
 					t.state = tsBlocked
 					t.cond = m.cond
+					t.wakeFn = m.wakeFn
+					s.Blocks++
 				}
 			case mDone:
 				t.state = tsDone
